@@ -142,14 +142,16 @@ def ignore_options(ignore):
         nbd.reset_notebook_differ()
 
 
-def argv_for(app, layout, p, strategy, explicit=True, with_pathname=True, with_out=True, ignore=()):
+def argv_for(app, layout, p, strategy, explicit=True, with_pathname=True, with_out=True, ignore=(), log_level=None):
     flags = flags_for(strategy, explicit) + list(ignore)
+    loglevel = ['--log-level', log_level] if log_level else []
     if app == 'driver':
-        a = ['merge'] + flags + [p['base'], p['local'], p['remote'], '7']
+        # --log-level is an option of the driver itself, not of its merge sub-command
+        a = loglevel + ['merge'] + flags + [p['base'], p['local'], p['remote'], '7']
         if with_pathname:
             a.append('notebook.ipynb')
         return a
-    a = list(flags)
+    a = loglevel + list(flags)
     if layout != 'no-base-arg':
         a.append(p['base'])
     a += [p['local'], p['remote']]
